@@ -1,6 +1,6 @@
 (* C08 — soundness of add_inputs_from (the code as it is now) for every strategy, every offered list, every
    builder content and every sequence of random choices; arbitrary min_fee / fee_for_input. *)
-From CSL Require Import Base.Prelude Num.Value Num.ValueProofs CoinSel.CoinSel CoinSel.CoinSelSpec CoinSel.CoinSelLemmas
+From CSL Require Import Base.Prelude Num.Value Num.ValueProofs Num.ValueNorm Num.ValueNormProofs CoinSel.CoinSel CoinSel.CoinSelSpec CoinSel.CoinSelLemmas
   CoinSel.CoinSelProofs.
 From Coq Require Import Permutation Sorting.Sorted.
 Local Open Scope N_scope.
@@ -110,16 +110,18 @@ Section Sound.
   Lemma initial_ok offered sc st0 :
     scenario_wf offered sc -> NoDup (ids (sc_pre sc)) ->
     initial_state min_fee sc = (st0, Done tt) ->
-    exists it0 ot0 f0, let m0 := imap_of_list (sc_pre sc) in
+    exists it0 ot0 f0, let m0 := initial_map sc in
       st0 = mkSt m0 it0 ot0 [] /\ value_wf it0 /\ value_wf ot0 /\ min_fee m0 = Ok f0 /\
       (forall s, Q s it0 = sumQ s (map u_val m0) + Q s (sc_implicit sc) + Q s (sc_mint sc)) /\
       (forall s, Q s ot0 = demand s sc f0).
   Proof.
     intros [_ [Wpre [Wout [Wimp [Wmint Wburn]]]]] Hnd H. unfold initial_state in H.
-    set (m0 := imap_of_list (sc_pre sc)) in *.
+    set (m0 := initial_map sc) in *.
     assert (Wm0 : Forall value_wf (map u_val m0)).
     { apply Forall_forall. intros x Hx. apply in_map_iff in Hx. destruct Hx as [u [<- Hu]].
-      apply (Permutation_in _ (imap_of_list_perm _ Hnd)) in Hu. rewrite Forall_forall in Wpre. apply Wpre. exact Hu. }
+      assert (Hnd' : NoDup (ids (map norm_utxo (sc_pre sc)))) by (rewrite ids_norm; exact Hnd).
+      apply (Permutation_in _ (imap_of_list_perm _ Hnd')) in Hu.
+      pose proof (norm_wf _ Wpre) as Wn. rewrite Forall_forall in Wn. apply Wn. exact Hu. }
     destruct (total_input sc m0) as [it0| | |] eqn:Ei; cbn [of_result obind] in H; try discriminate H.
     match type of H with obind _ (of_result ?r) _ = _ => destruct r as [ot0| | |] eqn:Eo end;
       cbn [of_result obind] in H; try discriminate H.
@@ -160,8 +162,8 @@ Section Sound.
 
   (* from the invariant to the clauses of the specification *)
   Lemma clauses_of_inv eff sc it0 ot0 f0 st' excl :
-    let m0 := imap_of_list (sc_pre sc) in
-    distinct_outpoints eff sc ->
+    let m0 := initial_map sc in
+    distinct_outpoints eff sc -> Forall (fun u => value_wf (u_val u)) eff ->
     min_fee m0 = Ok f0 ->
     (forall s, Q s it0 = sumQ s (map u_val m0) + Q s (sc_implicit sc) + Q s (sc_mint sc)) ->
     (forall s, Q s ot0 = demand s sc f0) ->
@@ -170,7 +172,7 @@ Section Sound.
     (excl = false -> forall p n, Q (ByAsset p n) (st_out st') <= Q (ByAsset p n) (st_in st')) ->
     sound_result min_fee ffi excl eff eff sc st'.
   Proof.
-    intros m0 Hd Hf Qi0 Qo0 I Hn Hc Ha.
+    intros m0 Hd Weff Hf Qi0 Qo0 I Hn Hc Ha.
     destruct I as [Iin [fees [Ifee Iout]] Iq Iwi Iwo Iidx].
     set (added := added_utxos eff (st_trace st')) in *.
     unfold distinct_outpoints in Hd.
@@ -179,15 +181,19 @@ Section Sound.
     assert (Hnd_added : NoDup (ids added)) by (apply nodup_added; auto).
     assert (Hincl : incl added eff).
     { intros u Hu. apply added_in in Hu. destruct Hu as [i [_ Hi]]. eapply nth_error_In; eauto. }
-    assert (Hm0 : Permutation m0 (sc_pre sc)) by (apply imap_of_list_perm; auto).
-    assert (Hall : NoDup (ids m0 ++ ids added)).
-    { apply NoDup_app_intro; auto.
-      - apply (Permutation_NoDup (Permutation_sym (Permutation_map u_id Hm0))). exact Hnd_pre.
+    assert (Wadded : Forall (fun u => value_wf (u_val u)) added).
+    { apply Forall_forall. intros u Hu. rewrite Forall_forall in Weff. apply Weff. apply Hincl. exact Hu. }
+    assert (Hm0 : Permutation m0 (map norm_utxo (sc_pre sc))).
+    { apply imap_of_list_perm. rewrite ids_norm. exact Hnd_pre. }
+    assert (Hall : NoDup (ids m0 ++ ids (map norm_utxo added))).
+    { rewrite ids_norm. apply NoDup_app_intro; auto.
+      - apply (Permutation_NoDup (Permutation_sym (Permutation_map u_id Hm0))). fold (ids (map norm_utxo (sc_pre sc))).
+        rewrite ids_norm. exact Hnd_pre.
       - intros x Hx Hx2.
-        apply (Permutation_in _ (Permutation_map u_id Hm0)) in Hx.
+        apply (Permutation_in _ (Permutation_map u_id Hm0)) in Hx. fold (ids (map norm_utxo (sc_pre sc))) in Hx. rewrite ids_norm in Hx.
         apply (NoDup_app_disj _ _ x Hd); auto.
         unfold ids in *. apply in_map_iff in Hx2. destruct Hx2 as [u [<- Hu]]. apply in_map. apply Hincl. exact Hu. }
-    assert (Hperm : Permutation (st_inputs st') (m0 ++ added)).
+    assert (Hperm : Permutation (st_inputs st') (m0 ++ map norm_utxo added)).
     { rewrite Iin. apply insert_all_perm. exact Hall. }
     unfold sound_result, distinct_members, preserved. fold m0. fold added. conj.
     - exact Hnd_added.
@@ -198,7 +204,7 @@ Section Sound.
     - rewrite (Permutation_length Hperm). apply app_length.
     - assert (Hsup : forall s, supply s sc (st_inputs st') = Q s (st_in st')).
       { intros s. unfold supply. rewrite (sumQ_perm s _ _ (Permutation_map u_val Hperm)).
-        rewrite map_app, sumQ_app. rewrite Iq, Qi0. fold added. lia. }
+        rewrite map_app, sumQ_app. rewrite (sumQ_norm s added Wadded). rewrite Iq, Qi0. fold added. lia. }
       assert (Hdem : forall s, demand s sc (f0 + fees) = Q s (st_out st')).
       { intros s. rewrite Iout, Qo0. unfold demand. destruct s; cbn [coin_only]; lia. }
       exists (f0 + fees). conj.
@@ -208,7 +214,6 @@ Section Sound.
         replace (demand (ByAsset p n) sc 0) with (demand (ByAsset p n) sc (f0 + fees)) by (unfold demand; reflexivity).
         rewrite Hdem. apply Ha. exact He.
   Qed.
-
 
   Lemma sound_result_weaken excl offered eff sc st' :
     incl eff offered -> sound_result min_fee ffi excl eff eff sc st' -> sound_result min_fee ffi excl offered eff sc st'.
@@ -230,9 +235,9 @@ Section Sound.
     scenario_wf offered sc -> pre_distinct sc ->
     add_inputs_from min_fee ffi current strat cs offered sc = (st', Done tt) ->
     let eff := effective_offered current offered sc in
-    let m0 := imap_of_list (sc_pre sc) in
+    let m0 := initial_map sc in
     exists it0 ot0 f0,
-      incl eff offered /\ distinct_outpoints eff sc /\
+      incl eff offered /\ distinct_outpoints eff sc /\ Forall (fun u => value_wf (u_val u)) eff /\
       min_fee m0 = Ok f0 /\
       (forall s, Q s it0 = sumQ s (map u_val m0) + Q s (sc_implicit sc) + Q s (sc_mint sc)) /\
       (forall s, Q s ot0 = demand s sc f0) /\
@@ -242,7 +247,7 @@ Section Sound.
   Proof.
     intros Hwf Hnd_pre H eff m0. unfold pre_distinct in Hnd_pre.
     unfold add_inputs_from in H. fold eff in H.
-    assert (Heff : eff = filter_offered (imap_ids (imap_of_list (sc_pre sc))) offered) by reflexivity.
+    assert (Heff : eff = filter_offered (imap_ids (initial_map sc)) offered) by reflexivity.
     clearbody eff.
     destruct (initial_state min_fee sc) as [st0 x0] eqn:E0. ob H. destruct a.
     destruct (initial_ok _ _ _ Hwf Hnd_pre E0) as [it0 [ot0 [f0 [Hst0 [Wi [Wo [Hf [Qi0 Qo0]]]]]]]].
@@ -252,7 +257,9 @@ Section Sound.
     assert (Hd : distinct_outpoints eff sc).
     { unfold distinct_outpoints. destruct (filter_offered_nodup offered (imap_ids m0)) as [Hn Hdis]. rewrite <- Heff in *.
       apply NoDup_app_intro; auto. intros x Hx Hp. apply (Hdis x Hx).
-      apply (Permutation_in _ (Permutation_sym (Permutation_map u_id (imap_of_list_perm _ Hnd_pre)))). exact Hp. }
+      assert (Hnd' : NoDup (ids (map norm_utxo (sc_pre sc)))) by (rewrite ids_norm; exact Hnd_pre).
+      apply (Permutation_in _ (Permutation_sym (Permutation_map u_id (imap_of_list_perm _ Hnd')))).
+      fold (ids (map norm_utxo (sc_pre sc))). rewrite ids_norm. exact Hp. }
     assert (Woff : Forall (fun u => value_wf (u_val u)) eff).
     { apply Forall_forall. intros u Hu. pose proof (proj1 Hwf) as W. rewrite Forall_forall in W. apply W. apply Hincl. exact Hu. }
     exists it0, ot0, f0.
@@ -324,23 +331,23 @@ Section Sound.
     sound_result min_fee ffi false offered (effective_offered current offered sc) sc st'.
   Proof.
     intros Hwf Hp H.
-    destruct (select_inv _ _ _ _ _ Hwf Hp H) as [it0 [ot0 [f0 [Hincl [Hd [Hf [Qi0 [Qo0 [I' [Hn' [Hc' Ha']]]]]]]]]]].
+    destruct (select_inv _ _ _ _ _ Hwf Hp H) as [it0 [ot0 [f0 [Hincl [Hd [Weff [Hf [Qi0 [Qo0 [I' [Hn' [Hc' Ha']]]]]]]]]]]].
     apply sound_result_weaken; auto.
     eapply clauses_of_inv; eauto.
   Qed.
 
   Lemma required_fee_final added : forall m fee,
-    fee_additive min_fee ffi -> required_fee min_fee ffi m added = Ok fee -> min_fee (insert_all added m) = Ok fee.
+    fee_additive min_fee ffi -> required_fee min_fee ffi m added = Ok fee ->
+    min_fee (insert_all (map norm_utxo added) m) = Ok fee.
   Proof.
-    induction added as [|u r IH]; intros m fee Ha H; unfold required_fee in H; cbn [marginal_fees insert_all fold_left] in *.
+    induction added as [|u r IH]; intros m fee Ha H; unfold required_fee in H; cbn [marginal_fees map insert_all fold_left] in *.
     - destruct (min_fee m) as [f0| | |]; cbn [bind] in H; try discriminate H. inversion H; subst. f_equal. lia.
     - destruct (min_fee m) as [f0| | |] eqn:E0; cbn [bind] in H; try discriminate H.
       destruct (ffi m u) as [f| | |] eqn:Ef; cbn [bind] in H; try discriminate H.
-      destruct (marginal_fees ffi (imap_insert u m) r) as [fs| | |] eqn:Er; cbn [bind] in H; try discriminate H.
-      inversion H; subst. apply IH; auto. unfold required_fee. rewrite (Ha _ _ _ Ef _ E0). cbn [bind].
+      destruct (marginal_fees ffi (imap_insert (norm_utxo u) m) r) as [fs| | |] eqn:Er; cbn [bind] in H; try discriminate H.
+      inversion H; subst. apply (IH (imap_insert (norm_utxo u) m)); auto. unfold required_fee. rewrite (Ha _ _ _ Ef _ E0). cbn [bind].
       rewrite Er. cbn [bind]. f_equal. lia.
   Qed.
-
 
   Theorem sound_current_min_fee strat cs offered sc st' :
     fee_additive min_fee ffi ->
@@ -351,14 +358,14 @@ Section Sound.
     intros Ha Hwf Hp H.
     pose proof (sound_current _ _ _ _ _ Hwf Hp H) as [_ [_ [fee [Hf [Hc _]]]]].
     exists fee. split; auto.
-    destruct (select_inv _ _ _ _ _ Hwf Hp H) as [it0 [ot0 [f0 [_ [_ [_ [_ [_ [I' _]]]]]]]]].
+    destruct (select_inv _ _ _ _ _ Hwf Hp H) as [it0 [ot0 [f0 [_ [_ [_ [_ [_ [_ [I' _]]]]]]]]]].
     rewrite (inv_inputs _ _ _ _ _ _ I'). apply required_fee_final; auto.
   Qed.
 
-  Lemma initial_trace sc st0 : initial_state min_fee sc = (st0, Done tt) -> st_trace st0 = [] /\ st_inputs st0 = imap_of_list (sc_pre sc).
+  Lemma initial_trace sc st0 : initial_state min_fee sc = (st0, Done tt) -> st_trace st0 = [] /\ st_inputs st0 = initial_map sc.
   Proof.
     unfold initial_state. intros H.
-    destruct (total_input sc (imap_of_list (sc_pre sc))); cbn [of_result obind] in H; try discriminate H.
+    destruct (total_input sc (initial_map sc)); cbn [of_result obind] in H; try discriminate H.
     match type of H with obind _ (of_result ?r) _ = _ => destruct r end; cbn [of_result obind] in H; try discriminate H.
     inversion H; subst. split; reflexivity.
   Qed.
@@ -448,7 +455,7 @@ Section Sound.
     scenario_wf offered sc -> pre_distinct sc ->
     initial_state min_fee sc = (st0, Done tt) ->
     let eff := effective_offered current offered sc in
-    exists it0 ot0 f0, let m0 := imap_of_list (sc_pre sc) in
+    exists it0 ot0 f0, let m0 := initial_map sc in
       st0 = mkSt m0 it0 ot0 [] /\ min_fee m0 = Ok f0 /\
       Forall (fun u => value_wf (u_val u)) eff /\
       (forall s, Q s it0 = sumQ s (map u_val m0) + Q s (sc_implicit sc) + Q s (sc_mint sc)) /\
@@ -474,7 +481,7 @@ Section Sound.
     add_inputs_from min_fee ffi current LargestFirst cs offered sc = (st', Done tt) ->
     forall k, (k < length (st_trace st'))%nat ->
       let eff := effective_offered current offered sc in
-      let before := imap_of_list (sc_pre sc) in
+      let before := initial_map sc in
       let prefix := added_utxos eff (firstn k (st_trace st')) in
       exists fk, required_fee min_fee ffi before prefix = Ok fk /\ ~ covers_coin sc (before ++ prefix) fk.
   Proof.
@@ -503,7 +510,7 @@ Section Sound.
     initial_state min_fee sc = (st0, Done tt) -> coin (st_in st0) < coin (st_out st0) ->
     add_inputs_from min_fee ffi current LargestFirst cs offered sc = (st', Insufficient) ->
     let eff := effective_offered current offered sc in
-    let before := imap_of_list (sc_pre sc) in
+    let before := initial_map sc in
     let added := added_utxos eff (st_trace st') in
     asset_guard st' = false \/
     (Permutation added eff /\
@@ -604,7 +611,7 @@ Section Sound.
     initial_state min_fee sc = (st0, Done tt) -> coin (st_in st0) < coin (st_out st0) ->
     add_inputs_from min_fee ffi current LargestFirstMultiAsset cs offered sc = (st', Insufficient) ->
     let eff := effective_offered current offered sc in
-    let before := imap_of_list (sc_pre sc) in
+    let before := initial_map sc in
     exists sel fee, required_fee min_fee ffi before (added_utxos eff (st_trace st')) = Ok fee /\
                     supply sel sc (before ++ eff) < demand sel sc fee.
   Proof.
@@ -616,11 +623,11 @@ Section Sound.
     assert (B0 : Bk (seq 0 (length eff)) st0).
     { subst st0. constructor; [apply seq_NoDup|constructor|intros i _ []]. }
     assert (C0 : Cover eff (seq 0 (length eff)) st0) by (intros i Hi; left; apply in_seq; lia).
-    assert (Fin : forall sel st, Inv ffi eff (imap_of_list (sc_pre sc)) it0 ot0 st -> NoDup (st_trace st) ->
+    assert (Fin : forall sel st, Inv ffi eff (initial_map sc) it0 ot0 st -> NoDup (st_trace st) ->
                   (forall i, (i < length eff)%nat -> has_key sel eff i = true -> In i (st_trace st)) ->
                   Q sel (st_in st) < Q sel (st_out st) ->
-                  exists fee, required_fee min_fee ffi (imap_of_list (sc_pre sc)) (added_utxos eff (st_trace st)) = Ok fee /\
-                              supply sel sc (imap_of_list (sc_pre sc) ++ eff) < demand sel sc fee).
+                  exists fee, required_fee min_fee ffi (initial_map sc) (added_utxos eff (st_trace st)) = Ok fee /\
+                              supply sel sc (initial_map sc ++ eff) < demand sel sc fee).
     { intros sel st [Iin [fees [Ifee Iout]] Iq _ _ Iidx] Hn Hall Hq.
       exists (f0 + fees). split; [unfold required_fee; rewrite Hf; cbn [bind]; rewrite Ifee; reflexivity|].
       unfold supply. rewrite map_app, sumQ_app.
@@ -669,7 +676,7 @@ Lemma derived_additive min_fee : fee_additive min_fee (derived_ffi min_fee).
 Proof.
   intros m u f Hf f0 H0. unfold derived_ffi in Hf. rewrite H0 in Hf. cbn [bind] in Hf.
   destruct (u_ok u); [|discriminate Hf].
-  destruct (min_fee (imap_insert u m)) as [b| | |]; cbn [bind] in Hf; try discriminate Hf.
+  destruct (min_fee (imap_insert (norm_utxo u) m)) as [b| | |]; cbn [bind] in Hf; try discriminate Hf.
   destruct (f0 <=? b) eqn:E; [|discriminate Hf]. inversion Hf; subst. apply N.leb_le in E. f_equal. lia.
 Qed.
 
@@ -679,7 +686,7 @@ Proof.
   unfold fee_for_input_of, derived_ffi, min_fee_of.
   destruct (raw (final_fee req two32) m) as [a| | |]; cbn [bind]; try reflexivity.
   destruct (u_ok u); [|reflexivity].
-  destruct (raw (final_fee req two32) (imap_insert u m)) as [b| | |]; cbn [bind]; reflexivity.
+  destruct (raw (final_fee req two32) (imap_insert (norm_utxo u) m)) as [b| | |]; cbn [bind]; reflexivity.
 Qed.
 
 (* for the fee functions of the builder (any raw estimate, any fee request): the inputs cover outputs + min_fee() of the
